@@ -4,8 +4,8 @@ import random
 
 ID = "C10"
 LEVEL = "exploration"
-RULE = ("cases: grammar (hand-written recursive ones + generated) x random history (length 1-40) over the public tree operations: add_child, set_children, "
-        "symbol/sender/recipient setters, append, replace, replace_multiple, deepcopy variants, prefix, split_end, [i], [i:j], find_all_trees / "
+RULE = ("cases: grammar (hand-written: recursive, computed repetition, bits/bytes, regex, generator-defined fields with source trees) x random history (length 1-40) over the public tree operations: add_child, set_children, "
+        "edits taken back (edit-undo), symbol/sender/recipient setters, append, replace, replace_multiple, deepcopy variants, prefix, split_end, [i], [i:j], find_all_trees / "
         "find_direct_trees / find_all_nodes, flatten, selector searches through real constraints (incl. slices), str/bytes/to_bits, collapse, parse "
         "results, crossover, mutation, repair (fix_individual with repetition insert/delete and equality repair). After EVERY step an invariant walker "
         "visits all live trees: size()/hash()/== against a from-scratch rebuild, child.parent identity; read-only and new-tree steps are bracketed by "
@@ -22,6 +22,9 @@ GRAMMARS = [
     "<start> ::= <n> <x>{int(<n>)} ';' <tail>\n<n> ::= '1' | '2' | '3'\n<x> ::= 'a' | 'b' <x>?\n<tail> ::= <x>*\n",
     "<start> ::= <hdr> <body>\n<hdr> ::= <bit>{4} <bit>{4}\n<bit> ::= 0 | 1\n<body> ::= (b'\\x01' | b'ab')* <bit>{8}\n",
     "<start> ::= <k> '=' <v> (';' <k> '=' <v>)*\n<k> ::= r'[a-c]+'\n<v> ::= <k> | r'[0-9]+' | '[' <start> ']'\n",
+    # generator-defined fields: nodes that carry source trees (generator arguments) next to their children
+    "<start> ::= <word> ':' <copy> (';' <pair>)*\n<word> ::= <l>+\n<l> ::= 'a' | 'b' | 'c'\n<copy> ::= <word> := str(<word>)\n"
+    "<pair> ::= <l> '=' <twice>\n<twice> ::= <l> <l> := str(<l>) * 2\n",
 ]
 CONSTRAINTS = {
     0: ["int(<d>) >= 0", "len(str(<a>)) < 9", "str(<start>[0]) != '9'", "len(<a>[0:2]) >= 0", "all(int(x) < 3 for x in *<d>)",
@@ -29,6 +32,7 @@ CONSTRAINTS = {
     1: ["int(<n>) > 0", "str(<tail>) != 'zz'", "len(<start>[1:3]) >= 0", "str(<x>[0]) in 'ab'"],
     2: ["len(<body>[0:2]) >= 0", "<hdr> != None"],
     3: ["str(<k>) != ''", "len(str(<v>)) > 0", "str(<start>[0:2]) != ''", "<k> == 'abc'"],
+    4: ["str(<copy>) != ''", "len(str(<word>)) < 4", "str(<twice>) != 'ab'", "<word> == 'abc'"],
 }
 
 
@@ -162,7 +166,7 @@ def run_case(c):
                 "nontrivial": len(held) > 0, "distinct_count": 1 if held else 0}
 
     OPS = ["replace", "replace_multiple", "deepcopy", "deepcopy-variant", "prefix", "split_end", "index", "slice", "find", "flatten", "value",
-           "add_child", "set_children", "symbol", "sender", "append", "crossover", "mutate", "repair", "constraint-check", "parse", "collapse", "eqcheck"]
+           "add_child", "set_children", "edit-undo", "symbol", "sender", "append", "crossover", "mutate", "repair", "constraint-check", "parse", "collapse", "eqcheck"]
     pm = PopulationManager(g, "<start>")
     for h in range(c["histories"]):
         random.seed(rng.randrange(1 << 30))
@@ -218,6 +222,18 @@ def run_case(c):
                 elif op == "set_children":
                     pure = False
                     n.set_children([g.fuzz(rng.choice(nts), 3) for _ in range(rng.randint(0, 2))])
+                elif op == "edit-undo":
+                    # an edit taken back through the same public mutators: the caches must follow both ways
+                    pure = False
+                    old_children = list(n._children)
+                    if rng.random() < 0.5:
+                        n.add_child(g.fuzz(rng.choice(nts), 3))
+                    else:
+                        n.set_children([g.fuzz(rng.choice(nts), 3)])
+                    if rng.random() < 0.8:
+                        n.set_children(old_children)
+                    else:
+                        n.set_children([copy.deepcopy(x) for x in old_children])
                 elif op == "symbol":
                     pure = False
                     n.symbol = NonTerminal(rng.choice(nts))
